@@ -12,10 +12,11 @@ import (
 const maxDataOp = 4 * MiB // "no data operation exceeds the 4MiB limit" (C11)
 
 type wsyncCase struct {
-	BS        int
-	Old       [][]byte
-	New       []byte
-	Preferred int64
+	AbortFirst int // > 0: first run a diff on the same context that fails after this many bytes
+	BS         int
+	Old        [][]byte
+	New        []byte
+	Preferred  int64
 }
 
 func (c *wsyncCase) sample() interface{} {
@@ -143,7 +144,40 @@ func opsEqual(a, b []RefOp) bool {
 	return true
 }
 
+// errAfterReader fails with a non-EOF error after n bytes.
+type errAfterReader struct {
+	data []byte
+	n    int
+	off  int
+}
+
+func (r *errAfterReader) Read(p []byte) (int, error) {
+	if r.off >= r.n || r.off >= len(r.data) {
+		return 0, ErrInjected
+	}
+	m := copy(p, r.data[r.off:min(r.n, len(r.data))])
+	r.off += m
+	return m, nil
+}
+
 func runWsyncCase(rt Failer, c *wsyncCase, slicings [][2]uint64) bool {
+	if c.AbortFirst > 0 && len(c.New) > 0 {
+		// a diff on the same context that dies of a read error part-way (right after some old
+		// material, if there is any): whatever it leaves behind must not leak into the next diff
+		ctx := ctxFor(diffCtxs, c.BS)
+		var sig []wsync.BlockHash
+		for i, o := range c.Old {
+			ctx.CreateSignature(t0ctx, int64(i), bytes.NewReader(o), func(h wsync.BlockHash) error { sig = append(sig, h); return nil })
+		}
+		junk := c.New
+		if len(c.Old) > 0 && len(c.Old[0]) >= c.BS {
+			junk = append(append([]byte{}, c.Old[0][:len(c.Old[0])/c.BS*c.BS]...), c.New...)
+		}
+		Recover(func() {
+			ctx.ComputeDiff(&errAfterReader{data: junk, n: c.AbortFirst}, wsync.NewBlockLibrary(sig), func(op wsync.Operation) error { return nil }, -1)
+		})
+		Ev.Fault("diff_aborted_by_read_error_before_reuse", 1)
+	}
 	var first []RefOp
 	for si, sl := range slicings {
 		r := NewSliceReader(c.New, int(sl[0]), sl[1], sl[1]%3 == 0, sl[1]%2 == 0)
@@ -255,6 +289,9 @@ func TestC11Small(t *testing.T) {
 		}
 		c.New = gen(9, "new")
 		c.Preferred = int64(rapid.IntRange(-1, nold-1).Draw(rt, "preferred"))
+		if rapid.IntRange(0, 3).Draw(rt, "abortfirst") == 0 {
+			c.AbortFirst = rapid.IntRange(1, 12).Draw(rt, "abortafter")
+		}
 		sl := [][2]uint64{{0, 0}, {uint64(rapid.IntRange(1, 4).Draw(rt, "slmode")), rapid.Uint64().Draw(rt, "slseed")}}
 		if runWsyncCase(rt, c, sl) {
 			return
@@ -322,6 +359,16 @@ func TestC11Big(t *testing.T) {
 			}
 			if !withMatches {
 				l = target - len(nw)
+			}
+			if rapid.IntRange(0, 3).Draw(rt, "construn") == 0 {
+				// a run of one constant byte (padding): successive windows with equal rolling hashes
+				run := make([]byte, l)
+				fb := rapid.SampledFrom([]byte{0, 0, 2, 0xAA}).Draw(rt, "constbyte")
+				for i := range run {
+					run[i] = fb
+				}
+				nw = append(nw, run...)
+				continue
 			}
 			nw = append(nw, Bytes(rapid.Uint64().Draw(rt, "freshseed"), l)...)
 		}
